@@ -148,7 +148,7 @@ pub fn exec(run: u64, prog: &Value, out: &mut Out) {
         if !every_prefix && k != calls.len() {
             continue;
         }
-        let e = json!({"a": a, "calls": calls[..k].to_vec()});
+        let e = json!({"a": a, "calls": calls[..k].to_vec(), "probe": prog.get("probe").cloned().unwrap_or(json!(false))});
         let r = guarded(|| {
             let obj = mk(st, &e, &hs);
             let mut v = Vec::new();
